@@ -83,8 +83,11 @@ def linesDispatch (op : String) (args : List String) : Option String :=
       let f ← parseInt first; let l ← parsePairs ps; pure (showEnc (Model.LineEnc.encode15 f l))
   | "x.enc3", [first, ps] => do
       let f ← parseInt first; let l ← parsePairs ps; pure (showEnc (Model.LineEnc.encode3 f l))
-  | "x.enc310", [first, ps] => do
-      let f ← parseInt first; let l ← parsePairs ps; pure (showEnc (Model.LineEnc.encode310 f l))
+  | "x.enc36", [first, ps] => do
+      let f ← parseInt first; let l ← parsePairs ps; pure (showEnc (Model.LineEnc.encode36 f l))
+  | "x.enc310", [first, len, ps] => do
+      let f ← parseInt first; let n ← parseInt len; let l ← parsePairs ps
+      pure (showEnc (Model.LineEnc.encode310 f n l))
   -- Spec side
   | "py.starts27", [first, h] => do
       let f ← parseInt first; let b ← parseHex h; pure (showStarts (Spec.Lines.starts27 f b))
